@@ -97,3 +97,9 @@ Theorem C03_lenient_nonvacuous :
   layout_ok len_lay len_doc = true /\ layout_ok len2_lay len2_doc = true /\
   parse_model TokRoundEx.ex_cls ex2_numcanon (fun _ => false) true (LexLinkBase.lines_of len2_text) = PRDoc len2_doc [] [].
 Proof. exact (conj len_layout_ok (conj len2_layout_ok len2_parses)). Qed.
+
+(* the lexer, parser and emitter functions are, text for text, the ones the hand-written models were validated against
+   (one digest per function, comments and docstrings excluded; harness/translate/srcdigest_t.py) *)
+From OV Require Import Gen.SrcDigestGen Syn.Pins_SrcDigest.
+Theorem C03_pin_source_text : src_lexer_pinned /\ src_parser_pinned /\ src_emitter_pinned.
+Proof. exact (conj src_lexer_pinned_ok (conj src_parser_pinned_ok src_emitter_pinned_ok)). Qed.
